@@ -14,7 +14,8 @@
   command timeout before the poll -> break; xpoll; -1 with errno != EINTR -> diagnostic, break; EINTR and the
   command timed out -> break; EINTR otherwise -> continue; else the handler of stdout is called iff
   `revents & (XPOLLREAD|XPOLLERR)`, THEN the handler of stderr iff -S (`dsh_sopt`) and the same test.
-  `Iter.toPEv` is the event of the worker LTS (Model.lean `pollStep`) the iteration amounts to.
+  `Iter.toPEv` is the event of the worker LTS (Model.lean `pollStep`) the iteration amounts to.  The ORDER of the two
+  handler calls is a parameter (`errFirst`): the properties hold for both, the check learns it from the code.
 
   Executed by `pdshmodel relay xpoll` against (a) the real xpoll.c over a scripted poll(2) (harness/relay_harness.c
   op `xpoll`) and (b) every poll return of every worker of the real `_rsh_thread` under the controlled scheduler
@@ -115,15 +116,22 @@ def loopIter (sopt tBefore tAfter : Bool) (fdO fdE : Int) (staleO staleE : Nat) 
     else
       (.dispatch ((r.xfds[0]?.map reported).getD false) (sopt && (r.xfds[1]?.map reported).getD false), some r)
 
-/-- the handlers an iteration calls, in call order (false = stdout, true = stderr) -/
-def Iter.calls : Iter → List Bool
-  | .dispatch o e => (if o then [false] else []) ++ (if e then [true] else [])
+/-- the handlers an iteration calls, in call order (false = stdout, true = stderr).  `errFirst` = the order of the
+    two "ready or closed ?" blocks in the code under test: dsh.c has stdout's first (`false`); the properties hold
+    for either order, so the order is LEARNT from the code under test on every run (a harmless swap stays silent)
+    and then checked at every poll return -/
+def Iter.calls (errFirst : Bool) : Iter → List Bool
+  | .dispatch o e =>
+    if errFirst then (if e then [true] else []) ++ (if o then [false] else [])
+    else (if o then [false] else []) ++ (if e then [true] else [])
   | _ => []
 
 /-- the worker-LTS event an iteration amounts to (`capO`, `capE`: what the read(2) of each handler call
     delivers at most -- the environment's choice); `none` = the loop is left -/
-def Iter.toPEv (capO capE : Option Nat) : Iter → Option PEv
-  | .dispatch o e => some (.poll (if o then some capO else none) (if e then some capE else none))
+def Iter.toPEv (errFirst : Bool) (capO capE : Option Nat) : Iter → Option PEv
+  | .dispatch o e =>
+    if errFirst then some (.pollRev (if o then some capO else none) (if e then some capE else none))
+    else some (.poll (if o then some capO else none) (if e then some capE else none))
   | .again => some .eintr
   | _ => none
 
@@ -209,10 +217,12 @@ theorem loopIter_error (sopt tAfter : Bool) (fdO fdE : Int) (staleO staleE : Nat
   cases sopt <;> simp only [loopIter, xpoll, Bool.false_eq_true, ↓reduceIte, Int.reduceLE] <;>
     split <;> (try split) <;> rfl
 
-/-- the handlers of one iteration: stdout's FIRST, then stderr's; at most one call each -/
-theorem calls_ordered (it : Iter) : it.calls = [] ∨ it.calls = [false] ∨ it.calls = [true] ∨ it.calls = [false, true] := by
+/-- the handlers of one iteration: at most one call each; both = in the order of the code (stdout's first in dsh.c) -/
+theorem calls_ordered (errFirst : Bool) (it : Iter) :
+    it.calls errFirst = [] ∨ it.calls errFirst = [false] ∨ it.calls errFirst = [true] ∨
+      it.calls errFirst = (if errFirst then [true, false] else [false, true]) := by
   cases it with
-  | dispatch o e => cases o <;> cases e <;> simp [Iter.calls]
+  | dispatch o e => cases o <;> cases e <;> cases errFirst <;> simp [Iter.calls]
   | _ => simp [Iter.calls]
 
 end PdshVerif.Relay.XPoll
